@@ -508,6 +508,82 @@ def replay_e2e_multi(failing):
     return r != failing['expected']
 
 
+# ---- the relation does not depend on the process environment
+ENV_VARIANTS = [{'NO_COLOR': '1'}, {'NO_COLOR': '1', 'FORCE_COLOR': '1'}, {'TERM': 'dumb'}, {'LC_ALL': 'C', 'LANG': 'C'},
+                {'PYTHONOPTIMIZE': '1'}, {'PYTHONIOENCODING': 'latin-1', 'PYTHONUTF8': '0'}, {'XDOCTEST_VERBOSE': '3', 'COLUMNS': '20'},
+                {'XDOCTEST_COLORED': '1', 'CLICOLOR_FORCE': '1'}]
+ENV_PAIRS = [('\x1b[31mred\x1b[0m', 'red'), ('red', '\x1b[1mred\x1b[0m'), ('\x9b31mred\x9b0m', 'red'), ('a  b', 'a b'), ('abc', 'a...'),
+             ("u'a'", "'a'"), ('a\n\nb', 'a\n<BLANKLINE>\nb'), ('x', 'y'), ("'a'", 'a'), ('a \nb', 'a\nb'), ('\x1b[2Kitem\x1b[1A', 'item')]
+_ENV_CHILD = ('import sys, json\nsys.dont_write_bytecode = True\nfrom xdoctest import checker, directive\n'
+              'req = json.loads(sys.stdin.read())\nout = []\n'
+              'for got, want, fl in req:\n'
+              '    try:\n        out.append(bool(checker.check_output(got, want, directive.RuntimeState(fl))))\n'
+              '    except Exception as e:\n        out.append("raise:" + type(e).__name__)\n'
+              'print(json.dumps(out))\n')
+
+
+def _env_child(env_extra, reqs):
+    import json
+    import os
+    import subprocess
+    import sys
+    from .. import paths
+    env = dict(os.environ)
+    for k in ('NO_COLOR', 'FORCE_COLOR', 'CLICOLOR_FORCE'):
+        env.pop(k, None)
+    env.update(env_extra)
+    env['PYTHONPATH'] = os.path.join(paths.repo_root(), 'src')
+    p = subprocess.run([sys.executable, '-c', _ENV_CHILD], input=json.dumps(reqs).encode(), stdout=subprocess.PIPE,
+                       stderr=subprocess.PIPE, env=env, timeout=300)
+    try:
+        return json.loads(p.stdout.decode().strip().splitlines()[-1])
+    except Exception:
+        return ['child-error: ' + p.stderr.decode()[-200:]] * len(reqs)
+
+
+def env_suite(ctx, corr):
+    """check_output is a function of (got, want, flags): the same requests answered by a fresh interpreter started under several
+    environments (colour switches, locale, -O, io encoding, xdoctest's own variables) must give what this process gives"""
+    from xdoctest import checker, directive
+    reqs = []
+    for got, want in ENV_PAIRS:
+        for n in (0, 31, 26, 16, 8):
+            reqs.append([got, want, flagset(n)])
+    here = []
+    for got, want, fl in reqs:
+        try:
+            here.append(bool(checker.check_output(got, want, directive.RuntimeState(fl))))
+        except Exception as e:
+            here.append('raise:' + type(e).__name__)
+    for env_extra in ENV_VARIANTS:
+        there = _env_child(env_extra, reqs)
+        for (got, want, fl), a, b in zip(reqs, here, there):
+            corr.count('env')
+            if a != b:
+                corr.expect_fail('env', {'env': env_extra, 'got': got, 'want': want, 'flags': fl}, a, b,
+                                 'check_output in a fresh interpreter started with this environment differs from the same call without it')
+        corr.nontriv(('env', repr(sorted(env_extra.items()))))
+        corr.tag('env:' + ','.join(sorted(env_extra)))
+
+
+def env_hits(corr):
+    hits = []
+    for e in corr.expect_failures:
+        if e['suite'] == 'env' and len(hits) < 2:
+            i = e['input']
+            exp = bool(checker_spec.check_output(i['got'], i['want'], **i['flags']))
+            hits.append({'kind': 'env', 'suite': 'env', 'input': i, 'expected': exp, 'impl': e['impl'],
+                         'why': 'with %r in the environment check_output(got, want, flags) gives %r; the documented relation gives %r' % (i['env'], e['impl'], exp)})
+    return hits
+
+
+def replay_env(failing):
+    i = failing['input']
+    r = _env_child(i['env'], [[i['got'], i['want'], i['flags']]])[0]
+    print('environment %r: check_output(%r, %r, %r) -> %r, expected %r' % (i['env'], i['got'], i['want'], i['flags'], r, failing['expected']))
+    return r != failing['expected']
+
+
 def stateful_failure(got, want, flags_then):
     """independent oracle for the stateful suite: is check_output a function of (got, want, current flags)? looks for a
     flag setting `first` such that checking the pair under `first` and then, on the SAME RuntimeState object, under
@@ -569,6 +645,7 @@ def correspondence(ctx, corr):
     stateful_reuse(ctx, corr)
     e2e_inline(ctx, corr)
     e2e_multi(ctx, corr)
+    env_suite(ctx, corr)
     from . import C02 as _c02
     _c02.part_check_suite(ctx, corr, quick_n=2500, full_n=30000)
     # exhaustive token strings
@@ -743,7 +820,7 @@ def _fails(got, want):
 
 
 def search(ctx, corr, broken):
-    found = stateful_hits(corr) + e2e_hits(corr) + e2e_multi_hits(corr) + part_check_hits(corr)
+    found = stateful_hits(corr) + e2e_hits(corr) + e2e_multi_hits(corr) + part_check_hits(corr) + env_hits(corr)
     cands = []
     for d in corr.disagreements:
         i = d['input']
@@ -805,6 +882,8 @@ def replay(ctx, failing):
         return replay_e2e(failing)
     if failing.get('kind') == 'e2e_multi':
         return replay_e2e_multi(failing)
+    if failing.get('kind') == 'env':
+        return replay_env(failing)
     if failing.get('kind') == 'part_check':
         from . import C02 as _c02
         real = _c02._real_part_check(failing['input'])
